@@ -65,6 +65,7 @@ type fobject struct {
 	site  token.Pos
 	ctx   string
 	kind  string // alloc, make, append, conv, ext, seed, global
+	actl  lset   // control labels in force where the object is allocated (with polarity)
 }
 
 type foset map[*fobject]bool
@@ -114,8 +115,9 @@ type storeEvent struct {
 	fn     *ssa.Function
 	obj    *fobject
 	key    string
-	labels lset // labels of the stored value
-	ctl    lset // control labels in force
+	labels lset  // labels of the stored value
+	ctl    lset  // control labels in force
+	pts    foset // objects the stored value may point to (pointer stores)
 }
 
 // callRecord records the abstract arguments of one call in one context.
@@ -421,7 +423,33 @@ func (it *flowAnalysis) store(c *fctx, in ssa.Instruction, to *aval, v *aval, ct
 		}
 		ev.labels.addAll(v.labels)
 		ev.ctl.addAll(ctl)
+		for o := range v.pts {
+			if ev.pts == nil {
+				ev.pts = foset{}
+			}
+			ev.pts[o] = true
+		}
 	}
+}
+
+// onlyIfOpt: the store event establishes a non-nil pointer only if option opt
+// is true: it executes only under opt+ (and never under opt-), or everything
+// it can store was allocated only under opt+ (a helper that returns nil when
+// the option is off and whose result is stored unconditionally).
+func (ev *storeEvent) onlyIfOpt(opt string) bool {
+	plus, minus := "opt:"+opt+"+", "opt:"+opt+"-"
+	if ev.ctl[plus] && !ev.ctl[minus] {
+		return true
+	}
+	if len(ev.pts) == 0 {
+		return false
+	}
+	for o := range ev.pts {
+		if o.kind != "alloc" || !o.actl[plus] || o.actl[minus] {
+			return false
+		}
+	}
+	return true
 }
 
 // structCopy copies cell-wise from the source struct(s) to the destination
@@ -644,6 +672,10 @@ func (it *flowAnalysis) step(c *fctx, b *ssa.BasicBlock, instr ssa.Instruction, 
 	case *ssa.Alloc:
 		et := in.Type().(*types.Pointer).Elem()
 		o := it.obj(fmt.Sprintf("alloc:%s:%s@%s#%s", et, in.Comment, it.p.Pos(in.Pos()), shortKey(c.key)), "alloc", et, in.Pos(), c.key)
+		if o.actl == nil {
+			o.actl = lset{}
+		}
+		o.actl.addAll(ctl)
 		it.addPts(c.get(it, in), o)
 	case *ssa.MakeSlice, *ssa.MakeMap:
 		v := in.(ssa.Value)
